@@ -206,6 +206,10 @@ def facts_vmdk(rng):
          ["sectors_total", sum(secs), d.sectors]]
     for k, e in enumerate(d.extents):
         f.append([f"extent{k}", repr((modes[k], secs[k], types[k], names[k])), repr((e.access_mode, e.sectors, e.type, e.filename))])
+    # DiskDescriptor.__str__ re-renders what was parsed: parsing it again must expose the same values
+    d2 = DiskDescriptor.parse(str(d))
+    f.append(["str-roundtrip", repr((sorted(d.attr.items()), sorted(d.ddb.items()), [(e.access_mode, e.sectors, e.type, e.filename) for e in d.extents])),
+              repr((sorted(d2.attr.items()), sorted(d2.ddb.items()), [(e.access_mode, e.sectors, e.type, e.filename) for e in d2.extents]))])
     # embedded descriptor of a hosted sparse extent (descriptor_offset / descriptor_size)
     vf, info = enc_vmdk.build_hosted([("D", 1)], [True], capacity=8, grain=8, gtes=4, desc=text, max_pos=2)
     v = VMDK(vf)
